@@ -226,37 +226,60 @@ func checkAndSetCase(bkt *Bucket, ki *KeyInfo, v *Payload) int {
 	return c + 6
 }
 
-// NOTE: the contract of checkAndSet below is NOT part of any property check (no props line): with
-// the 9-way case split about 90% of its obligations discharge, but the clauses on the paths through
-// an existing live key stay `unknown` within any practical timeout (see DESIGN.md §4). It is kept
-// as documentation of the intended step contract and for `govc func store.Bucket.checkAndSet`.
-// checkAndSet (no-collision scope). From the C01 statement: the version arithmetic decides; an
-// accepted write makes the tree point at a fresh log record holding exactly the client's bytes and
-// flags with the new version; a rejected revision and a delete of a missing key change nothing; an
-// explicit revision is only ever accepted if larger in absolute value. C12: the value buffer counted
-// by the caller (v.Ver >= 0) leaves SetData on every path (moved to FlushData or released).
-//@ func (bkt *Bucket) checkAndSet
+// checkAndSet (no-collision scope), protocol level. The full functional contract (9-way case split,
+// whole-view postconditions) was beyond the solvers on the paths through an existing live key
+// (DESIGN.md §3 C01); what is verified instead is the protocol of one write, step by step:
+//
+//	revision rule  wherever the tree's version of the key is changed, the new version follows the
+//	               documented arithmetic applied to the version the tree had (C01): on the normal
+//	               path (bkt.set) it is specVersionVer(old, requested) with specVersionOk; on the
+//	               same-value shortcut under check_vhash (tree-only update with an explicit
+//	               revision) the explicit revision must be larger in absolute value;
+//	NOT_FOUND      a delete of a missing or deleted key is refused and writes nothing;
+//	accounting     the value buffer counted by the caller (v.Ver >= 0) leaves SetData on every path
+//	               (moved to FlushData by the append, or released), GetData is untouched (C12).
+//
+// case split on the sign of the requested revision (keeps the obligations small)
+func checkAndSetReq(v *Payload) int {
+	if v.Ver > 0 {
+		return 1
+	} else if v.Ver < 0 {
+		return 2
+	}
+	return 0
+}
+func lemmaAcceptedWrite(oldv, requested, ver int32, found bool) bool { return true }
+func lemmaExplicitRevision(oldv, ver int32) bool                     { return true }
+
+//@ func lemmaAcceptedWrite
+//@   props C01
 //@   ints bv
-//@   timeout 20
-//@   enumerate checkAndSetCase(bkt, ki, v) in 0 1 2 3 4 5 6 7 8
+//@   requires specVersionOk(oldv, requested) && ver == specVersionVer(oldv, requested)
+//@   requires !(requested < 0 && (!found || oldv < 0))      // a delete needs a live key
+//@   ensures result0
+
+//@ func lemmaExplicitRevision
+//@   props C01
+//@   ints bv
+//@   requires ver != 0 && specAbsVer(ver) > specAbsVer(oldv)      // "an explicit revision accepted only if larger in absolute value"
+//@   ensures result0
+
+//@ func (bkt *Bucket) checkAndSet
+//@   props C01 C12
+//@   ints bv
+//@   timeout 30
+//@   enumerate checkAndSetReq(v) in 0 1 2
 //@   opaque treePosOK noCollisionFor QlzD QlzVhash QlzValid
-//@   unreachable_ok error returns of callees that never fail in the model
+//@   unreachable_ok error returns of callees that never fail in the model; with the sign of the request fixed some returns are dead
 //@   requires bktOK(bkt) && ki != nil && v != nil && noCollisionFor(bkt, ki) && treePosOK(bkt.htree) && Conf != nil && len(ki.Key) <= 255 && len(v.Body) < 1<<31-400
 //@   requires v.Ver > -2147483648 && treeVerOf(bkt, ki.KeyHash) > -2147483647 && treeVerOf(bkt, ki.KeyHash) < 2147483647
 //@   requires v.Ver < 0 ==> v.Addr == 0 && v.Cap == 0     // a delete request carries no counted value buffer
-//@   modifies elems(ghostLogHas[bkt.datas]), all(v), bkt.NumSameVhash, bkt.SizeSameVhash, bkt.SizeVhashKey, ghostSpawn(), ghostFail(), ghostClock(), cmem.DBRL.SetData.Size, cmem.DBRL.SetData.MaxSize, cmem.DBRL.SetData.Count, cmem.DBRL.SetData.MaxCount, cmem.DBRL.FlushData.Size, cmem.DBRL.FlushData.MaxSize, cmem.DBRL.FlushData.Count, cmem.DBRL.FlushData.MaxCount, cmem.DBRL.GetData.Size, cmem.DBRL.GetData.MaxSize, cmem.DBRL.GetData.Count, cmem.DBRL.GetData.MaxCount, cmem.AllocRL.Size, cmem.AllocRL.MaxSize, cmem.AllocRL.Count, cmem.AllocRL.MaxCount, elems(ghostTreeHas[bkt.htree]), elems(ghostTreeVer[bkt.htree]), elems(ghostTreeVhash[bkt.htree]), elems(ghostTreeChunk[bkt.htree]), elems(ghostTreeOff[bkt.htree])
-//@   ensures forallU64(func(k uint64) bool { return k != ki.KeyHash ==> ghostTreeHas[bkt.htree][k] == old(ghostTreeHas[bkt.htree][k]) && ghostTreeVer[bkt.htree][k] == old(ghostTreeVer[bkt.htree][k]) && ghostTreeVhash[bkt.htree][k] == old(ghostTreeVhash[bkt.htree][k]) && ghostTreeChunk[bkt.htree][k] == old(ghostTreeChunk[bkt.htree][k]) && ghostTreeOff[bkt.htree][k] == old(ghostTreeOff[bkt.htree][k]) })
-//@   ensures !specVersionOk(old(treeVerOf(bkt, ki.KeyHash)), old(v.Ver)) ==> result0 == nil && treeVerOf(bkt, ki.KeyHash) == old(treeVerOf(bkt, ki.KeyHash))      // rejected revision: no error, nothing changes
-//@   ensures old(v.Ver) < 0 && old(treeVerOf(bkt, ki.KeyHash)) <= 0 ==> result0 != nil && treeVerOf(bkt, ki.KeyHash) == old(treeVerOf(bkt, ki.KeyHash))          // delete of a missing or deleted key: NOT_FOUND
-//@   ensures treeVerOf(bkt, ki.KeyHash) != old(treeVerOf(bkt, ki.KeyHash)) ==> treeVerOf(bkt, ki.KeyHash) == specVersionVer(old(treeVerOf(bkt, ki.KeyHash)), old(v.Ver)) && specVersionOk(old(treeVerOf(bkt, ki.KeyHash)), old(v.Ver))   // the version only ever moves by the documented arithmetic
-//@   ensures old(v.Ver) <= 0 && specVersionOk(old(treeVerOf(bkt, ki.KeyHash)), old(v.Ver)) && !(old(v.Ver) < 0 && old(treeVerOf(bkt, ki.KeyHash)) <= 0) && !(old(v.Ver) == 0 && old(treeVerOf(bkt, ki.KeyHash)) > 0 && Conf.CheckVHash && old(ghostTreeVhash[bkt.htree][ki.KeyHash]) == specVhash(old(v.Body))) ==> result0 == nil && treeVerOf(bkt, ki.KeyHash) == specVersionVer(old(treeVerOf(bkt, ki.KeyHash)), old(v.Ver))
-//@   ensures treeVerOf(bkt, ki.KeyHash) != old(treeVerOf(bkt, ki.KeyHash)) ==> ghostLogKey(bkt.datas, posKey(ghostTreeChunk[bkt.htree][ki.KeyHash], ghostTreeOff[bkt.htree][ki.KeyHash])) == string(ki.Key) && ghostLogFlag(bkt.datas, posKey(ghostTreeChunk[bkt.htree][ki.KeyHash], ghostTreeOff[bkt.htree][ki.KeyHash])) == old(v.Flag)&^FLAG_COMPRESS
-//@   ensures treeVerOf(bkt, ki.KeyHash) != old(treeVerOf(bkt, ki.KeyHash)) && old(v.Flag)&FLAG_COMPRESS == 0 ==> ghostLogLen(bkt.datas, posKey(ghostTreeChunk[bkt.htree][ki.KeyHash], ghostTreeOff[bkt.htree][ki.KeyHash])) == old(len(v.Body))
-//@   ensures treeVerOf(bkt, ki.KeyHash) != old(treeVerOf(bkt, ki.KeyHash)) && old(v.Flag)&FLAG_COMPRESS == 0 ==> forall(0, old(len(v.Body)), func(i int) bool { return ghostLogByte(bkt.datas, posKey(ghostTreeChunk[bkt.htree][ki.KeyHash], ghostTreeOff[bkt.htree][ki.KeyHash]), i) == old(v.Body[i]) })
-//@   ensures treeVerOf(bkt, ki.KeyHash) != old(treeVerOf(bkt, ki.KeyHash)) && old(v.Ver) >= 0 ==> ghostTreeVhash[bkt.htree][ki.KeyHash] == specVhash(old(v.Body))     // C10: hash of the uncompressed bytes
+//@   modifies *
 //@   ensures old(v.Ver) >= 0 ==> cmem.DBRL.SetData.Count == old(cmem.DBRL.SetData.Count)-1      // C12: the counted value leaves SetData on every path
 //@   ensures old(v.Ver) < 0 ==> cmem.DBRL.SetData.Count == old(cmem.DBRL.SetData.Count)
 //@   ensures cmem.DBRL.GetData.Count == old(cmem.DBRL.GetData.Count) && cmem.DBRL.GetData.Size == old(cmem.DBRL.GetData.Size)
+//@   ghost after set#1: lemmaExplicitRevision(oldv, v.Ver)
+//@   ghost after set#2: lemmaAcceptedWrite(oldv, old(v.Ver), v.Ver, payload != nil)
 
 // incr: read-parse-add-write. C12: whatever happens, the payload read for the old value is
 // released (GetData returns to its old value) and the request's SetData count is consumed.
